@@ -8,7 +8,7 @@ open GoSup.Core GoSup.CompSeq
 open GoSup.CompLts (getElem?_modify')
 
 /-- `Run` has not got as far as its `select` -/
-def early (s : St) : Bool := match s.run with | .idle | .entered | .probing | .booted => true | _ => false
+def early (s : St) : Bool := match s.run with | .idle | .entered | .bootFailed | .probing | .booted => true | _ => false
 
 /-- `Run` is past its own `stopServer`, or has returned otherwise than through the server-error arm -/
 def post (s : St) : Bool :=
@@ -32,7 +32,7 @@ structure Inv (s : St) : Prop where
   muFree  : s.mu = some .run → s.run = .probing
   muFree' : s.mu = some .reload → s.rl ≠ .idle
   early   : early s = true → s.rl = .idle ∧ (s.run = .idle → s.fsm = .new) ∧ (s.run ≠ .idle → s.fsm = .booting)
-  fresh   : (s.run = .idle ∨ s.run = .entered) → s.insts = []
+  fresh   : (s.run = .idle ∨ s.run = .entered ∨ s.run = .bootFailed) → s.insts = []
   released : post s = true → s.rl ≠ .probing → ∀ i, isOpenAt s i = false
   serving : (s.run = .booted ∨ s.run = .select) → (s.rl = .idle ∨ s.rl = .entered ∨ ∃ r b, s.rl = .cbReturned r b) → s.fsm ≠ .error → listening s = true
   closedAtBoot : s.rl = .toBoot → ∀ i, isOpenAt s i = false
@@ -194,7 +194,7 @@ open GoSup.CompLts (getElem?_modify')
 
 theorem inv_step_run {s s' : St} {a : Act} (h : Inv s) (hs : step s a = some s')
     (ha : match a with
-      | .runEnter | .runBootBegin _ _ | .runProbeOk | .runProbeFail _ | .runToRunning | .runSelCtx | .runSelStop | .runSelErr
+      | .runEnter | .runBootBegin _ _ | .runBootFail | .runProbeOk | .runProbeFail _ | .runToRunning | .runSelCtx | .runSelStop | .runSelErr
       | .runToStopping | .runStopServer _ | .runFinish => True
       | _ => False) : Inv s' := by
   cases a <;> simp only at ha
@@ -228,7 +228,7 @@ theorem inv_step_run {s s' : St} {a : Act} (h : Inv s) (hs : step s a = some s')
       obtain ⟨hrun, hmu⟩ := hc
       obtain ⟨e1, _, e3⟩ := h.early (by simp [early, hrun])
       have hfsm : s.fsm = .booting := e3 (by rw [hrun]; simp)
-      have hfresh := h.fresh (Or.inr hrun)
+      have hfresh := h.fresh (Or.inr (Or.inl hrun))
       have hmu' : s.mu = none := by cases hm : s.mu <;> simp_all
       have hnone : ∀ (t : St), t.insts = [] → ∀ i, isOpenAt t i = false := fun t ht i => by simp [isOpenAt, ht]
       have good : ∀ (c' : Option Nat),
@@ -246,11 +246,10 @@ theorem inv_step_run {s s' : St} {a : Act} (h : Inv s) (hs : step s a = some s')
           simp only [create, Option.some.injEq] at hi
           subst hi
           simp [create]
-      have bad : ∀ (c' : Option Nat),
-          Inv { s with cfg := c', fsm := Fsm.error, run := RunPc.returned RRet.boot, runCancelled := true } := by
+      have bad : ∀ (c' : Option Nat), Inv { s with cfg := c', run := RunPc.bootFailed } := by
         intro c'
-        refine ⟨?_, h.srvLt, by simp [afterSel], by simp [e1], by simp, by simp [hmu'], by simp [hmu'], by simp [early], by simp,
-          ?_, by simp, by simp [e1]⟩
+        refine ⟨?_, h.srvLt, by simp [afterSel], by simp [e1], by simp, by simp [hmu'], by simp [hmu'], by simp [early, e1, hfsm],
+          by simp [hfresh], ?_, by simp, by simp [e1]⟩
         · intro i hi
           have hi' : isOpenAt s i = true := hi
           rw [hnone s hfresh i] at hi'; cases hi'
@@ -259,6 +258,29 @@ theorem inv_step_run {s s' : St} {a : Act} (h : Inv s) (hs : step s a = some s')
       all_goals first
         | (cases hs; exact good _)
         | (cases hs; exact bad _)
+  case runBootFail =>
+    simp only [step] at hs
+    split at hs
+    · cases hs
+    · rename_i hrun
+      simp only [bne_iff_ne, ne_eq, Decidable.not_not] at hrun
+      obtain ⟨e1, _, _⟩ := h.early (by simp [early, hrun])
+      have hfresh := h.fresh (Or.inr (Or.inr hrun))
+      have hmu' : s.mu = none := by
+        cases hm : s.mu with
+        | none => rfl
+        | some o =>
+          cases o with
+          | run => have := h.muFree hm; rw [hrun] at this; cases this
+          | reload => exact absurd e1 (h.muFree' hm)
+      have hnone : ∀ i, isOpenAt s i = false := fun i => by simp [isOpenAt, hfresh]
+      cases hs
+      refine ⟨?_, h.srvLt, by simp [afterSel], by simp [e1], by simp, by simp [hmu'], by simp [hmu'], by simp [early], by simp,
+        ?_, by simp, by simp [e1]⟩
+      · intro i hi
+        have hi' : isOpenAt s i = true := hi
+        rw [hnone i] at hi'; cases hi'
+      · intro _ _ i; exact hnone i
   case runProbeOk =>
     simp only [step] at hs
     split at hs
@@ -520,9 +542,9 @@ theorem inv_step_rl {s s' : St} {a : Act} (h : Inv s) (hs : step s a = some s')
       have hnp : s.run ≠ .probing := not_probing_of_mu h (by rw [hmu]; simp)
       have hne := not_early_of_rl h (by rw [hc]; simp)
       have hno := stopServer_none_open h.one
-      have hfresh : (s.run = .idle ∨ s.run = .entered) → False := by
+      have hfresh : (s.run = .idle ∨ s.run = .entered ∨ s.run = .bootFailed) → False := by
         intro hr
-        have : early s = true := by rcases hr with hr | hr <;> simp [early, hr]
+        have : early s = true := by rcases hr with hr | hr | hr <;> simp [early, hr]
         rw [hne] at this; cases this
       split at hs
       · cases hs
@@ -562,9 +584,9 @@ theorem inv_step_rl {s s' : St} {a : Act} (h : Inv s) (hs : step s a = some s')
       have hnp : s.run ≠ .probing := not_probing_of_mu h (by rw [hmu]; simp)
       have hne := not_early_of_rl h (by rw [hc]; simp)
       have hclosed := h.closedAtBoot hc
-      have hfresh : (s.run = .idle ∨ s.run = .entered) → False := by
+      have hfresh : (s.run = .idle ∨ s.run = .entered ∨ s.run = .bootFailed) → False := by
         intro hr
-        have : early s = true := by rcases hr with hr | hr <;> simp [early, hr]
+        have : early s = true := by rcases hr with hr | hr | hr <;> simp [early, hr]
         rw [hne] at this; cases this
       split at hs
       · cases hs
@@ -621,9 +643,9 @@ theorem inv_step_rl {s s' : St} {a : Act} (h : Inv s) (hs : step s a = some s')
       have hnp : s.run ≠ .probing := not_probing_of_mu h (by rw [hmu]; simp)
       have hne := not_early_of_rl h (by rw [hc]; simp)
       have hno := stopServer_none_open (s := { s with errs := if consume = true then List.drop 1 s.errs else s.errs }) h.one
-      have hfresh : (s.run = .idle ∨ s.run = .entered) → False := by
+      have hfresh : (s.run = .idle ∨ s.run = .entered ∨ s.run = .bootFailed) → False := by
         intro hr
-        have : early s = true := by rcases hr with hr | hr <;> simp [early, hr]
+        have : early s = true := by rcases hr with hr | hr | hr <;> simp [early, hr]
         rw [hne] at this; cases this
       cases hs
       refine ⟨?_, ?_, by simpa [afterSel] using h.cancel, by simp, by simpa using hnp, by simp, by simp, ?_, ?_, ?_, by simp, by simp⟩
